@@ -572,13 +572,11 @@ func weightPositive(fi *engine.FuncInfo, spaceT *types.Named, v ssa.Value, at *s
 		if x.Op != token.SUB {
 			return "computed as " + short(fi.T(x).S) + ", not as limit - load"
 		}
-		limit, load := fi.T(x.X).S, fi.T(x.Y).S
+		load := fi.T(x.Y).S
+		// some comparison of "load + requested" with the limit decides the fit; whatever its form (a < b, a >= b with
+		// the branches swapped), what must hold here is load + requested < limit
 		for _, in := range allInstrs(fi.Fn) {
-			cmp, ok := in.(*ssa.BinOp)
-			if !ok || cmp.Op != token.LSS || fi.T(cmp.Y).S != limit {
-				continue
-			}
-			add, ok := cmp.X.(*ssa.BinOp)
+			add, ok := in.(*ssa.BinOp)
 			if !ok || add.Op != token.ADD {
 				continue
 			}
@@ -590,7 +588,7 @@ func weightPositive(fi *engine.FuncInfo, spaceT *types.Named, v ssa.Value, at *s
 				if !isFieldOfNamed(other, spaceT) {
 					continue
 				}
-				need := fi.Cond(cmp)
+				need := engine.LtAtom(fi.T(add), fi.T(x.X))
 				if ok, _ := fi.Implies(at, need); ok {
 					return ""
 				}
